@@ -444,6 +444,70 @@ static int c20_trans(bfs_t *b, const uint16_t *hist, int len, uint64_t canon, in
     return BFS_OK;
 }
 
+/* ---- a glyph cache at capacity.  The table takes FULL_N glyphs; the breadth-first search has two glyph keys only, so the state "full" is built
+ * directly (one freeze, FULL_N inserts of a 1x1 a8 image under distinct keys) and every sequence of three operations over {insert under a new key
+ * (refused while full), remove one glyph, insert under the key removed last, thaw + freeze} is applied from there; a refused insert returns NULL and
+ * owns nothing afterwards, and after removing everything and destroying the cache the heap is back where it was. */
+#ifdef PIXMAN_VERIF_GLYPH_HASH_SIZE
+#define FULL_N PIXMAN_VERIF_GLYPH_HASH_SIZE       /* this check builds the library with a small table (see checks/registry.d/C20.py) */
+#else
+#define FULL_N 32768
+#endif
+static void full_cache_case(uint64_t idx, void *vctx)
+{
+    (void)vctx;
+    int ops[3] = { (int)(idx % 4), (int)(idx / 4 % 4), (int)(idx / 16 % 4) };
+    size_t heap0 = heap_now();
+    uint32_t px = 0xff; pixman_image_t *g = pixman_image_create_bits(PIXMAN_a8, 1, 1, &px, 4);
+    pixman_glyph_cache_t *c = pixman_glyph_cache_create();
+    pixman_glyph_cache_freeze(c);
+    int present_lo = 0, n_live = 0, extra = 0, removed_key = -1; char desc[300]; size_t dl = 0;
+    for (int k = 0; k < FULL_N; k++) {
+        if (!pixman_glyph_cache_insert(c, C20_FONT, (void *)(uintptr_t)(0x1000 + k), 0, 0, g)) { vf_violation("c20-glyph-insert-failed", "insert %d of %d into one freeze returned NULL", k + 1, FULL_N); goto out; }
+        n_live++;
+    }
+    dl += snprintf(desc + dl, sizeof desc - dl, "cache filled with %d glyphs in one freeze", FULL_N);
+    for (int s = 0; s < 3 && !vf_failed(); s++) {
+        size_t h0 = heap_now(); const void *r;
+        switch (ops[s]) {
+        case 0:
+            r = pixman_glyph_cache_insert(c, C20_FONT, (void *)(uintptr_t)(0x900000 + extra++), 0, 0, g);
+            dl += snprintf(desc + dl, sizeof desc - dl, "; insert(new key)%s", r ? "" : "=NULL");
+            if (n_live >= FULL_N) {
+                if (r) vf_violation("c20-full-cache-accepted-insert", "%s: the table holds %d glyphs in %d slots", desc, n_live, FULL_N);
+                else if (heap_now() != h0) vf_violation("c20-refused-insert-keeps-memory", "%s: the refused insert left %lld bytes allocated that nothing owns", desc, (long long)heap_now() - (long long)h0);
+            } else if (!r) vf_violation("c20-glyph-insert-failed", "%s: %d of %d slots are live", desc, n_live, FULL_N); else n_live++;
+            break;
+        case 1:
+            if (present_lo < FULL_N) { removed_key = 0x1000 + present_lo; pixman_glyph_cache_remove(c, C20_FONT, (void *)(uintptr_t)removed_key); present_lo++; n_live--; dl += snprintf(desc + dl, sizeof desc - dl, "; remove(one)"); }
+            break;
+        case 2:
+            if (removed_key >= 0) {
+                r = pixman_glyph_cache_insert(c, C20_FONT, (void *)(uintptr_t)removed_key, 0, 0, g);
+                dl += snprintf(desc + dl, sizeof desc - dl, "; insert(the key removed last)%s", r ? "" : "=NULL");
+                if (n_live >= FULL_N) { if (!r && heap_now() != h0) vf_violation("c20-refused-insert-keeps-memory", "%s: the refused insert left %lld bytes allocated that nothing owns", desc, (long long)heap_now() - (long long)h0); }
+                else if (!r) vf_violation("c20-glyph-insert-failed", "%s: %d of %d slots are live", desc, n_live, FULL_N);
+                else { n_live++; present_lo--; removed_key = -1; }
+            }
+            break;
+        default:
+            pixman_glyph_cache_thaw(c); pixman_glyph_cache_freeze(c); n_live = -1;     /* above the high-water mark: the thaw evicts; what is left is the cache's business */
+            dl += snprintf(desc + dl, sizeof desc - dl, "; thaw; freeze");
+            s = 3; break;
+        }
+    }
+out:
+    pixman_glyph_cache_thaw(c);
+    pixman_glyph_cache_destroy(c);
+    pixman_image_unref(g);
+    vf_count_eval(1); vf_count_nontrivial(1); vf_count_libcalls(FULL_N + 8);
+    if (!vf_failed() && !vf_asan_flag) {
+        size_t heap1 = heap_now();
+        if (heap1 != heap0) vf_violation("c20-heap-not-released", "%s; then thaw, cache destroy and release of the glyph image: %lld bytes of heap are still allocated", desc, (long long)heap1 - (long long)heap0);
+    }
+    if (!vf_in_confirm) vf_outcome(idx);
+}
+
 /* What the self-referencing image does on first use (finding #7, second half): _pixman_image_validate() follows
  * image->common.alpha_map without end.  Run under the watchdog (tail-call loop) and a SIGSEGV handler on an alternate
  * stack (stack overflow). */
@@ -503,6 +567,7 @@ int main(int argc, char **argv)
     bfs_free(&b);
 
     vf_space_run("self-alpha-first-use", 2, self_alpha_use_case, NULL);
+    vf_space_run("glyph-cache-at-capacity", 64, full_cache_case, NULL);
 
     vf_bounds = th ? "3 images + 1 glyph cache; client references per image <= 2; at most 4 non-default properties (transform, filter params, clip, destroy function) in the pool at a time; search to the fixpoint"
                    : "3 images + 1 glyph cache; client references per image <= 2; at most 2 non-default properties (transform, filter params, clip, destroy function) in the pool at a time; search to the fixpoint";
